@@ -9,12 +9,15 @@
 use super::*;
 
 fn response<const L: usize>() -> (String, [u8; L]) {
+  // any well-formed UTF-8 text without NUL bytes (JSON responses carry stored fields and
+  // ids, which may hold multi-byte characters)
   let b: [u8; L] = kani::any();
   let mut i = 0;
   while i < L {
-    kani::assume(b[i] != 0 && b[i] < 0x80);
+    kani::assume(b[i] != 0);
     i += 1;
   }
+  kani::assume(crate::verif_support::utf8_ok(&b));
   (unsafe { String::from_utf8_unchecked(b.to_vec()) }, b)
 }
 
@@ -82,7 +85,7 @@ fn tail_case<const L: usize, const CAP: usize>() {
 //@ props: C26
 //@ tier: quick
 //@ funcs: searchlite_ffi::searchlite_search (source slice: the statements from the `out_json_buf.is_null() || buf_cap == 0` test to the end of the function)
-//@ symbolic: response = any 5 non-NUL ASCII bytes; caller buffer = exactly CAP bytes between two 8-byte canary zones of one heap allocation, for CAP in {0,1,2,5,6,7}
+//@ symbolic: response = any well-formed UTF-8 text of 5 bytes without NUL (1-4 byte characters); caller buffer = exactly CAP bytes between two 8-byte canary zones of one heap allocation, for CAP in {0,1,2,5,6,7}
 //@ bounds: response length 5, capacities 0,1,2,5,6,7 (below, at and above the response length)
 //@ oracle: no write outside the caller's buffer (canary bytes intact; beyond the canaries CBMC's pointer checks); returns min(len, cap-1); buf[..ret] is a prefix of the response; buf[ret] = 0; nothing after it is written; cap 0 returns 0 and writes nothing
 //@ assumes: the slice replaces `serde_json::to_string(&res)` by an arbitrary string (the response bytes)
@@ -101,7 +104,7 @@ fn c26_search_tail_bounded_copy() {
 //@ props: C26
 //@ tier: quick
 //@ funcs: searchlite_ffi::searchlite_search (source slice, as above)
-//@ symbolic: response = any 3 bytes; out_json_buf = NULL with any capacity
+//@ symbolic: response = any well-formed UTF-8 text of 3 bytes; out_json_buf = NULL with any capacity
 //@ bounds: response length 3
 //@ oracle: a null output buffer returns 0 without dereferencing it
 #[kani::proof]
@@ -153,7 +156,7 @@ fn c26_null_arguments_rejected() {
 
 //@ like: c26_search_tail_bounded_copy
 //@ tier: thorough
-//@ symbolic: response = any 8 non-NUL ASCII bytes; capacities 3, 4, 7, 8, 9, 10 (well below, just below, at and above the response length)
+//@ symbolic: response = any well-formed UTF-8 text of 8 bytes without NUL; capacities 3, 4, 7, 8, 9, 10 (well below, just below, at and above the response length)
 //@ bounds: response length 8, capacities 3, 4, 7, 8, 9, 10 (all twelve capacities 0..11 in one harness exceed the 14 GB address-space limit)
 #[kani::proof]
 #[kani::unwind(30)]
